@@ -16,7 +16,8 @@ def run(tier):
                 "rewrites of Rewrite.tla at seed-chosen nodes (definite<->indefinite per container/string, chunking, "
                 "non-minimal head widths, rotation of map members, unknown positive/negative keys carrying tagged / float / "
                 "nested / indefinite values) and serialised again; TLC checks that the variant is a valid file with the same "
-                "denotation and that the library reader returns exactly the same dump for both; every prefix of some variants is "
+                "denotation and that the library reader returns exactly the same dump for both, also through a forward-only stream "
+                "on a 5-byte decoder window; every prefix of some variants is "
                 "read (and fails) and right after it the whole variant again, which must read as before; distinct = variants")
     chk.assumptions = ["TLC + CommunityModules", "Cbor.tla / CdnsFormat.tla / Rewrite.tla as the reading of RFC 8949 / 8618",
                        "driver reader dump (harness/records.h)"]
@@ -34,6 +35,10 @@ def run(tier):
         p.write_bytes(b)
         vpaths.append(p)
     dumps, crashes = reader_dumps(work, paths + vpaths)
+    # the same files through a forward-only stream (a pipe, a decompression filter: no seeking) on the build whose decoder
+    # window is 5 bytes, so that every string, also of an unknown member, reaches past the window
+    dumps_f, crashes_f = reader_dumps(work, vpaths, defs=("CDNS_VERIF_DEC_BUFFER=5",), fwd=True, label="c08fwd")
+    crashes += crashes_f
     nsh = vlib.NCPU
     traces = [work / f"c08.{i}.ndjson" for i in range(nsh)]
     hs = [open(t, "w") for t in traces]
@@ -45,6 +50,9 @@ def run(tier):
               "rd_orig": dumps[f.name]["rd"], "rd_var": dumps[vp.name]["rd"]}
         hs[k % nsh].write(json.dumps(ev) + "\n")
         k += 1
+        if vp.name in dumps_f:
+            hs[k % nsh].write(json.dumps(dict(ev, rd_var=dumps_f[vp.name]["rd"])) + "\n")
+            k += 1
     # a reader is not disturbed by what an EARLIER reader on the same thread met: every prefix of a few small variants
     # (a read that fails somewhere inside - also inside the value of an unknown member) is read, and right after it the
     # complete variant once more: it must give exactly what it gave the first time (digests compared by TLC)
